@@ -108,7 +108,13 @@ def f_ctor_diag : Family :=
 def f_conv : Family :=
   { name := "conv", kind := .syn, keys := shapes4, nOut := fun k => k0 k * k1 k, spec := fun k => conv (k0 k) (k1 k) (k2 k) (k3 k) }
 
-def families : List Family := [f_mul, f_asgmul_m, f_mulmv, f_mulvm, f_transpose, f_outer, f_compmult, f_addmm, f_submm, f_addms, f_addsm, f_subms, f_subsm, f_mulms, f_mulsm, f_divms, f_divsm, f_negm, f_posm, f_preinc, f_predec, f_postinc, f_postdec, f_asgadd_m, f_asgsub_m, f_asgadd_s, f_asgsub_s, f_asgmul_s, f_asgdiv_s, f_asg_m, f_row_get, f_row_set, f_col_get, f_col_set, f_ctor_diag, f_conv]
+/-- integer matrices (traced at symbolic int32): the same definitions, reached through ext/matrix_integer.inl's dispatcher -/
+def f_itranspose : Family := { f_transpose with name := "itranspose", unit := "itranspose" }
+def f_iouter : Family := { f_outer with name := "iouter", unit := "iouter" }
+def f_icompmult : Family := { f_compmult with name := "icompmult", unit := "icompmult" }
+def f_imulmv : Family := { f_mulmv with name := "imulmv", unit := "imulmv" }
+
+def families : List Family := [f_mul, f_asgmul_m, f_mulmv, f_mulvm, f_transpose, f_outer, f_compmult, f_addmm, f_submm, f_addms, f_addsm, f_subms, f_subsm, f_mulms, f_mulsm, f_divms, f_divsm, f_negm, f_posm, f_preinc, f_predec, f_postinc, f_postdec, f_asgadd_m, f_asgsub_m, f_asgadd_s, f_asgsub_s, f_asgmul_s, f_asgdiv_s, f_asg_m, f_row_get, f_row_set, f_col_get, f_col_set, f_ctor_diag, f_conv, f_itranspose, f_iouter, f_icompmult, f_imulmv]
 
 def fam (n : String) : Family := findFam families n
 
